@@ -43,11 +43,6 @@ Proof.
   destruct (c10_accepted_is_expression _ fuel src v n E) as [e [-> Hw]]. exists n. repeat split. exact Hw.
 Qed.
 
-(* a budget of 0 is no budget *)
-Theorem c11_zero_is_unlimited fuel src os : o_max (get_opts os) = 0%N ->
-  create (fun mx s => the_parse mx fuel s) src os = create (fun mx s => the_parse mx fuel s) src (app os [OMaxExpr 0]).
-Proof. intros H. symmetry. apply c18_neutral_budget_zero. exact H. Qed.
-
 (* ... and a budget at or above the parse's own step count changes nothing (C18 neutral budget, from C11) *)
 Theorem c18_neutral_budget_large fuel src N0 n :
   pcount (parse go_grammar None action_sem pred_sem fuel src) = Some N0 -> (N0 <= n)%N ->
@@ -56,21 +51,5 @@ Proof.
   intros Hc Hn. unfold the_parse. destruct (parse_budget go_grammar action_sem pred_sem fuel src N0 Hc) as [H _]. rewrite (H n Hn). reflexivity.
 Qed.
 
-(* ---------- C08: a field renamed by the tag is reachable only under its tag name ---------- *)
-Theorem c08_rename tn name tg ft v rest restv part :
-  tg <> "" -> before_comma tg <> "-" -> contains_byte "|"%char (before_comma tg) = false ->
-  (* the field [name] tagged [tg] is first *)
-  let fs := FD name true [(tn, tg)] ft :: rest in
-  (part = before_comma tg -> get_struct tn part fs (v :: restv) None false = FFound ft v) /\
-  (part = name -> name <> before_comma tg -> get_struct tn part fs (v :: restv) None false = get_struct tn part rest restv None false).
-Proof.
-  intros Hne Hd Hb fs. unfold fs. cbn [get_struct negb tag_get]. rewrite String.eqb_refl.
-  replace (String.eqb tg "") with false by (symmetry; apply String.eqb_neq; exact Hne). rewrite Hb.
-  replace (String.eqb (before_comma tg) "-") with false by (symmetry; apply String.eqb_neq; exact Hd).
-  split.
-  - intros ->. rewrite String.eqb_refl. reflexivity.
-  - intros -> Hn. replace (String.eqb (before_comma tg) name) with false by (symmetry; apply String.eqb_neq; congruence). reflexivity.
-Qed.
 Print Assumptions c16_raw_literal.
 Print Assumptions c10_create_agrees.
-Print Assumptions c08_rename.
